@@ -67,7 +67,7 @@ theorem readColumn_int (z : Int) (r : FrameRead.Bytes) (h : isInt32 z = true) :
 theorem readField_int (z : Int) (r : FrameRead.Bytes) (h : isInt32 z = true) :
     readField (eInt z ++ r) =
       if z < 0 then .ok (none, r)
-      else if r.length < z.toNat then .crash
+      else if r.length < z.toNat then .err
       else .ok (some (r.take z.toNat), r.drop z.toNat) := by
   obtain ⟨h1, h2⟩ := beNat_eInt_take z r h
   unfold readField
